@@ -16,7 +16,7 @@ func init() {
 		Explanation: "Interleavings themselves cannot be enumerated statically; decided are the conditions under which no interleaving can expose a gap: " +
 			"R17.1 lock discipline: every read and write of TargetsDiscovery.{config,activeTargets,dropTargets} and of Explore.targets / exploringTarget.exploring, and every use (lookup, update, delete, range, len) of the maps loaded from them, happens with the owning mutex held (constructors on fresh objects exempt); " +
 			"R17.2 snapshots: exported getters return a map made in the call and filled under the lock; slices published in the guarded maps are only ever fresh slices or unmodified entries moved from the previous map (never a re-slice or in-place append of a published slice); " +
-			"R17.3 reload: ApplyConfig builds new maps that receive, for each job of the new configuration, the old entry under the same key, and installs them (and the new config) in the same critical section; the explorer's ApplyConfig keeps exactly the entries whose job still exists; " +
+			"R17.3 reload: ApplyConfig builds new maps that receive, for each job of the new configuration, the old entry under the same key - only for jobs that had one, since a key means the job had a discovery round -, and installs them (and the new config) in the same critical section; the explorer's ApplyConfig keeps exactly the entries whose job still exists; " +
 			"R17.4 per-job replacement: a discovery update installs one freshly built slice per job of the update (not carried across jobs); the explorer's table is replaced as a whole by a fresh map keyed by the hashes of the latest update only.",
 		Assumptions: []string{"go/types and go/ssa are correct", "lock identity is by mutex field, not by instance"}})
 }
@@ -310,6 +310,22 @@ func runC17(p *engine.Prog, r *engine.Report) {
 				// only condition: the job had an entry
 				for _, g := range extraGuardsExcept(fi, mu.Block(), []string{"has(", "eq(nil,", ",nil)"}) {
 					probs = append(probs, "an old entry is kept only under the extra condition "+g)
+				}
+				// the job must have had an entry: a key in the tables means "this job had a discovery round" (the start-up
+				// wait looks at nothing else), so a reload must not create keys for jobs that are new
+				{
+					guarded := false
+					for _, g := range fi.Guards(mu.Block()) {
+						if strings.HasPrefix(g, "has(") && strings.Contains(g, "."+fAct.Name()) {
+							guarded = true
+						}
+						if strings.HasPrefix(g, "¬eq(") && strings.Contains(g, "nil") && strings.Contains(g, "."+fAct.Name()) {
+							guarded = true
+						}
+					}
+					if !guarded {
+						probs = append(probs, "new "+f.Name()+" gets a key for every job of the new configuration, also for jobs that had no entry (a key means the job had its first discovery round: start-up would stop waiting for it)")
+					}
 				}
 				// ... and the other way round: whenever the job had an entry it is kept (decided over all branch
 				// conditions of the loop body, so that alternatives like "unless its relabeling changed" are seen)
